@@ -28,12 +28,15 @@ VDIR = "/virt"
 RULE = ("generated: benign programs of 1-12 statements (tools/faults.benign_program, seeded); every fault kind of tools/faults.py "
         "(%d kinds: parse-time critical, parse-time non-critical, compile-time, evaluation-time) planted before every statement position "
         "and at the end, preceded by one of %d lead texts (tabs, blanks, comment lines with non-ASCII text, a label, a Cyrillic string); "
+        "cross-file: %d kinds whose diagnostic carries locations in TWO files (duplicate exports by '::', '==', '.extern', '.extern all'; second '.link'), "
+        "under file names sorting both ways (a/b, z/b, lib/main, main/lib), both link orders where the kind allows it, and with the culprit in an included file; "
+        "the leading locations of the first diagnostic must be (culprit token in its file, previous declaration in the other file) in the report site's order; "
         "three file roles: the only linked file, the second of two linked files, a file pulled in by '.include' (in-memory file map). "
         "thorough: full product programs x kinds x positions x roles; quick: all kinds x all positions of 3 programs with role and lead "
         "rotating so that every kind meets every role. All spans of all diagnostics are judged. A seeded subset runs the real CLI with "
         "--report-format=bare -Wall in a scratch directory and the 'file:line:col' prefix of the first output line is judged. "
         "non-trivial = distinct (kind, role, position, lead, program) whose assembly produced at least one diagnostic"
-        % (len(faults.KINDS), len(faults.LEADS)))
+        % (len(faults.KINDS), len(faults.LEADS), len(faults.CROSS)))
 LEVEL_TEXT = ("Coq theorems (unbounded texts and offsets): Context.__repr__'s line:column arithmetic equals the Spec character walk "
               "(newline -> next line column 1, tab -> +4, other -> +1); the position lies inside the file; offsets in order give positions "
               "in order; the bare format prints the start position. PARTIAL: that each report site passes the offending token's span in the "
@@ -73,7 +76,8 @@ def build_case(kind, stmts, pos, lead, role, tag, rng_tag):
     for k2, v in fs.items():
         if isinstance(v, str):
             texts[k2] = v
-    return {"files": files, "fs": fs, "texts": texts, "pfile": pfile, "planted": p}
+    exp = [(pfile, p.offset, p.end)] + [(pfile, a, b) for a, b in p.others]
+    return {"files": files, "fs": fs, "texts": texts, "pfile": pfile, "planted": p, "expected": exp}
 
 
 def nlist_text(t):
@@ -103,10 +107,53 @@ def case_term(case, res):
                 return None, "negative offset %r" % (sp,)
             spans.append("{| o_file := %d; o_start := %d; o_end := %d; o_sl := %d; o_sc := %d; o_el := %d; o_ec := %d |}"
                          % (idx.get(sp[0], 999), sp[1], sp[2], sl, sc, el, ec))
-    p = case["planted"]
-    pend = ("(Some %d%%nat)" % p.end) if p.end is not None else "None"
+    exp = "; ".join("(%d%%nat, %d%%nat, %s)" % (idx[f], a, ("Some %d%%nat" % b) if b is not None else "None") for f, a, b in case["expected"])
     texts = "[" + "; ".join(nlist_text(case["texts"][n]) + "%N" for n in names) + "]"
-    return "CPlanted %s [%s] %d%%nat %d%%nat %s" % (texts, "; ".join(spans), idx[case["pfile"]], p.offset, pend), None
+    return "CPlanted %s [%s] [%s]" % (texts, "; ".join(spans), exp), None
+
+
+def build_cross(kind, names, order, pos_o, pos_c, lead, tag, rng_tag, include=False):
+    """two files; the culprit's statement in one, the previous declaration in the other"""
+    k = faults.CROSS[kind]
+    ostm = faults.benign_program(random.Random(rng_tag), 3, tag + "o")
+    cstm = faults.benign_program(random.Random(rng_tag + 7), 3, tag + "c")
+    oname, cname = VDIR + "/" + names[0], VDIR + "/" + names[1]
+    fs = {}
+    if include:
+        ostm = ostm[:pos_o] + ["\t.include \"%s\"" % names[1]] + ostm[pos_o:]
+        osrc, csrc, cspan, ospan, _ = faults.plant_cross(kind, ostm, cstm, 0, pos_c, lead=lead, tag=tag)
+        files = [(oname, osrc)]
+        fs[cname] = csrc
+    else:
+        osrc, csrc, cspan, ospan, _ = faults.plant_cross(kind, ostm, cstm, pos_o, pos_c, lead=lead, tag=tag)
+        files = [(oname, osrc), (cname, csrc)] if order == "culprit-second" else [(cname, csrc), (oname, osrc)]
+    texts = {oname: osrc, cname: csrc}
+    P = faults.Planted(csrc, k.ident, k.severity, cspan[0], cspan[1], {}, k, [])
+    return {"files": files, "fs": fs, "texts": texts, "pfile": cname, "planted": P,
+            "expected": [(cname, cspan[0], cspan[1]), (oname, ospan[0], ospan[1])]}
+
+
+def plan_cross(tier, seed):
+    """list of (kind, names, order, pos_other, pos_culprit, lead_no, include)"""
+    out = []
+    leads = [0, 1, 4, 7] if tier == "quick" else range(len(faults.LEADS))
+    positions = [(0, 3), (2, 0)] if tier == "quick" else [(a, b) for a in range(4) for b in range(4)]
+    for ki, (name, k) in enumerate(faults.CROSS.items()):
+        for ni, names in enumerate(faults.CROSS_NAMES):
+            for order in (["culprit-second"] if k.order == "second" else ["culprit-second", "culprit-first"]):
+                for pi, (po, pc) in enumerate(positions):
+                    for li in leads:
+                        if tier == "quick" and (li + pi + ni + ki) % 2:
+                            continue
+                        out.append((name, names, order, po, pc, li, False))
+        if k.include_ok:
+            for ni, names in enumerate(faults.CROSS_INCLUDE_NAMES):
+                for pi, (po, pc) in enumerate(positions):
+                    for li in leads:
+                        if tier == "quick" and (li + pi + ni + ki) % 2:
+                            continue
+                        out.append((name, names, "included", min(po, 3), pc, li, True))
+    return out
 
 
 def plan(tier, seed):
@@ -134,9 +181,18 @@ def programs(seed, sizes):
     return [faults.benign_program(random.Random(seed * 1000 + i), n, "p%d" % i) for i, n in enumerate(sizes)]
 
 
+def kind_info(name):
+    """(phase, severity, ident) of a single-file or cross-file kind"""
+    if name in faults.KINDS:
+        k = faults.KINDS[name]
+        return k.phase, k.severity, k.ident
+    k = faults.CROSS[name]
+    return "cross-file", k.severity, k.ident
+
+
 def describe(item, case):
     kind, pi, n, pos, li, role = item
-    return {"kind": kind, "role": role, "position": pos, "program_statements": n, "lead": faults.LEADS[li],
+    return {"kind": kind, "expected_locations": [list(e) for e in case["expected"]], "role": role, "position": pos, "program_statements": n, "lead": faults.LEADS[li],
             "files": [[a, b] for a, b in case["files"]], "fs": {k: (v if isinstance(v, str) else "<directory>") for k, v in case["fs"].items()},
             "planted_file": case["pfile"], "planted_offset": case["planted"].offset, "planted_end": case["planted"].end,
             "culprit": case["planted"].source[case["planted"].offset:case["planted"].end] if case["planted"].end is not None else None}
@@ -161,14 +217,19 @@ def explore(rep, br, tier, seed):
     for it in items:
         kind, pi, n, pos, li, role = it
         cases.append(build_case(kind, progs[pi], pos, faults.LEADS[li], role, "p%d" % pi, seed + pi))
+    # diagnostics with locations in two files: every kind x file names sorting both ways x link orders / include
+    for (kind, names, order, po, pc, li, inc) in plan_cross(tier, seed):
+        role = "cross:%s+%s:%s" % (names[0], names[1], order)
+        items.append((kind, -1, 3, pc, li, role))
+        cases.append(build_cross(kind, names, order, po, pc, faults.LEADS[li], "x%d" % (po * 4 + pc), seed + po * 5 + pc, include=inc))
     outs = impl.pmap("assemble", [((c["files"],), {"fs": c["fs"]}) for c in cases], chunksize=32)
     terms, keep = [], []
     for it, c, r in zip(items, cases, outs):
         kind, pi, n, pos, li, role = it
-        k = faults.KINDS[kind]
+        phase, k_sev, k_ident = kind_info(kind)
         rep.add_eval()
-        rep.count("phase:" + k.phase)
-        rep.count("role:" + role)
+        rep.count("phase:" + phase)
+        rep.count("role:" + role.split(":")[0])
         rep.count("outcome:" + str(r.get("outcome")))
         d = None
         if r.get("outcome") not in ("ok", "failed"):
@@ -182,8 +243,8 @@ def explore(rep, br, tier, seed):
             continue
         rep.nontrivial((kind, role, pos, li, pi))
         rep.traces_validated += 1
-        if (sev, ident) != (k.severity, k.ident):
-            rep.violate("C17:%s:first-diagnostic" % kind, "the first diagnostic is not the planted fault's (%s %s expected)" % (k.severity, k.ident),
+        if (sev, ident) != (k_sev, k_ident):
+            rep.violate("C17:%s:first-diagnostic" % kind, "the first diagnostic is not the planted fault's (%s %s expected)" % (k_sev, k_ident),
                         describe(it, c), impl={"first": [sev, ident, sp], "all": [[x[0], x[1]] for x in r["diags"]][:6]})
             continue
         t, why = case_term(c, r)
@@ -216,7 +277,7 @@ def explore(rep, br, tier, seed):
             rep.disagree("Model.ContextM.repr vs the line:column pdpy11 printed for a span", d, impl=obs)
         if code & 2:
             rep.violate("C17:%s:position" % it[0], "a diagnostic's span is not where the culprit is (judged in Coq, Run.C17Run against Spec.LineCol): "
-                        "expected first span to start at offset %d of %s" % (c["planted"].offset, c["pfile"]), d, impl=obs, replay_kind="planted")
+                        "expected the leading spans of the first diagnostic to be, in this order, %s" % (c["expected"],), d, impl=obs, replay_kind="planted")
     for (it, c, line), code in zip(cli_keep, flat[len(terms):]):
         if not code:
             continue
@@ -291,15 +352,15 @@ def run_cli(rep, tier, seed, items, cases):
             results = list(ex.map(job, range(len(chosen))))
         for j, (line, rc, ppath) in enumerate(results):
             it, c = items[chosen[j]], cases[chosen[j]]
-            k = faults.KINDS[it[0]]
+            k_sev = kind_info(it[0])[1]
             rep.add_eval()
-            rep.count("cli:" + it[5])
+            rep.count("cli:" + it[5].split(":")[0])
             if line is None:
                 rep.violate("C17:%s:cli-timeout" % it[0], "the command line did not finish", describe(it, c), impl="timeout")
                 continue
             # "<file>:<line>:<col>: Error|Warning: text"; the file is the real path of the planted file
             want_prefix = os.path.abspath(ppath) + ":"
-            word = "Warning" if k.severity == "warning" else "Error"
+            word = "Warning" if k_sev == "warning" else "Error"
             ok = line.startswith(want_prefix)
             lc = line[len(want_prefix):].split(":", 2) if ok else []
             if not ok or len(lc) < 3 or not lc[0].isdigit() or not lc[1].isdigit() or not lc[2].startswith(" " + word + ":"):
@@ -337,11 +398,10 @@ def py_linecol(text, off):
 def py_check(case, res):
     """None if fine, else a description"""
     p = case["planted"]
-    k = p.kind
     sev, ident, sp = first_span(res)
     if res.get("outcome") not in ("ok", "failed") or sev is None:
         return "no diagnostic (%s)" % res.get("outcome")
-    if (sev, ident) != (k.severity, k.ident):
+    if (sev, ident) != (p.severity, p.ident):
         return "first diagnostic is %s %s" % (sev, ident)
     for s2, i2, sps in res["diags"]:
         for s in sps:
@@ -352,8 +412,10 @@ def py_check(case, res):
                 return "span outside the file or reversed: %r" % (s,)
             if "%d:%d" % py_linecol(t, s[1]) != s[3] or "%d:%d" % py_linecol(t, s[2]) != s[4]:
                 return "printed line:col is not the position of the offset: %r" % (s,)
-    if sp[0] != case["pfile"] or sp[1] != p.offset or (p.end is not None and sp[2] != p.end):
-        return "first span %r is not the planted token at %s:%d..%s" % (sp, case["pfile"], p.offset, p.end)
+    first = res["diags"][0][2]
+    for i, (f, a, b) in enumerate(case["expected"]):
+        if i >= len(first) or first[i][0] != f or first[i][1] != a or (b is not None and first[i][2] != b):
+            return "location %d of the first diagnostic is %r, expected %s:%d..%s" % (i + 1, first[i] if i < len(first) else None, f, a, b)
     return None
 
 
@@ -365,6 +427,9 @@ def search_without_model(rep, tier, seed):
     sizes, items = plan("quick", seed)
     progs = programs(seed, sizes)
     cases = [build_case(k, progs[pi], pos, faults.LEADS[li], role, "p%d" % pi, seed + pi) for (k, pi, n, pos, li, role) in items]
+    for (kind, names, order, po, pc, li, inc) in plan_cross("quick", seed):
+        items.append((kind, -1, 3, pc, li, "cross:%s+%s:%s" % (names[0], names[1], order)))
+        cases.append(build_cross(kind, names, order, po, pc, faults.LEADS[li], "x%d" % (po * 4 + pc), seed + po * 5 + pc, include=inc))
     outs = impl.pmap("assemble", [((c["files"],), {"fs": c["fs"]}) for c in cases], chunksize=32)
     for it, c, r in zip(items, cases, outs):
         why = py_check(c, r)
@@ -377,15 +442,16 @@ def search_without_model(rep, tier, seed):
 
 def replay(data):
     inp = data["input"]
-    k = faults.KINDS[inp["kind"]]
+    phase, sev, ident = kind_info(inp["kind"])
     files = [tuple(x) for x in inp["files"]]
     fs = {p: (IsADirectoryError if v == "<directory>" else v) for p, v in inp.get("fs", {}).items()}
     r = impl.assemble(files, fs=fs)
     texts = dict(files)
     texts.update({p: v for p, v in fs.items() if isinstance(v, str)})
-    P = faults.Planted(texts[inp["planted_file"]], k.ident, k.severity, inp["planted_offset"], inp.get("planted_end"), {}, k)
-    why = py_check({"texts": texts, "pfile": inp["planted_file"], "planted": P}, r)
-    print("kind %s, role %s: first diagnostic now %r" % (inp["kind"], inp["role"], first_span(r)))
+    P = faults.Planted(texts[inp["planted_file"]], ident, sev, inp["planted_offset"], inp.get("planted_end"), {}, None, [])
+    exp = [tuple(e) for e in inp.get("expected_locations") or [[inp["planted_file"], inp["planted_offset"], inp.get("planted_end")]]]
+    why = py_check({"texts": texts, "pfile": inp["planted_file"], "planted": P, "expected": exp}, r)
+    print("kind %s, role %s: first diagnostic now %r" % (inp["kind"], inp["role"], r["diags"][:1]))
     if why:
         print("still wrong:", why)
     return why is None
